@@ -7,7 +7,7 @@ VERSIONS = _prog.VERSIONS
 versions_for = _prog.versions_for_any
 op_args = _prog.op_args
 strategy = _prog.dense_strategy
-fixed_cases = _prog.fixed_cases
+fixed_cases = _prog.fixed_cases_dense
 RULE = ("case = program compiled on each of 3.7-3.10; for every code object (nested included) the flattened blocks of "
         "from_code(c) are compared position by position with an independent scan of co_code (cross-checked with dis): opname, "
         "operand class and resolved value (names/locals/cells/frees/constants by typed key), jump kind and the block that "
